@@ -121,7 +121,17 @@ pub fn prefix_hashes(toks: &[char]) -> Vec<u64> {
 }
 
 pub fn run_kind<'a, I: Kind<'a>, E: ErrTy<'a, I>>(g: &G, input: I, toks: &[char], mode: &str) -> Result<Obs, String> {
-    let p = build::<I, E>(g, &vec![])?;
+    // building the grammar runs library code too (recursive(), boxed(), define()): a panic there is an observation
+    let p = match catch_unwind(AssertUnwindSafe(|| build::<I, E>(g, &vec![]))) {
+        Ok(p) => p?,
+        Err(e) => {
+            let msg = e.downcast_ref::<String>().cloned().or_else(|| e.downcast_ref::<&str>().map(|s| s.to_string())).unwrap_or_default();
+            let mut o = Obs::default();
+            o.panic = Some(format!("while building the parser: {msg}"));
+            o.out = json!(["U"]);
+            return Ok(o);
+        }
+    };
     let _ = take_log();
     let live0 = val::live_count() as i64;
     let dd0 = val::double_drops();
